@@ -62,14 +62,39 @@ def run_one(prop: str, name: str, spec: dict) -> Tuple[str, str, str, str]:
     return name, spec["expect"], "analysis-error", out.strip().splitlines()[0][:160] if out.strip() else ""
 
 
-def battery(prop: str, jobs: int = 8) -> dict:
+def battery(prop: str, jobs: int = 8, scope: str = "full") -> dict:
+    """scope 'full': every variant and every seeded change; 'thorough': the hand-written variants of the property, every
+    seeded change that was written for it or breaks it, and every third one of the remaining seeded changes (as silent
+    variants) -- the thorough tier of a check stays within a few minutes, `python sa/selftest.py` runs everything"""
     specs = load().get(prop, {})
+    if scope == "thorough":
+        seeded_dir = os.path.join(os.path.dirname(HERE), "seeded")
+        keep = {}
+        others = []
+        for name, spec in specs.items():
+            if not name.startswith("seeded:"):
+                keep[name] = spec
+                continue
+            sid = name.split(":", 1)[1]
+            try:
+                with open(os.path.join(seeded_dir, sid, "meta.json")) as fh:
+                    meta = json.load(fh)
+            except OSError:
+                meta = {}
+            if spec["expect"] != "silent" or meta.get("written_for_property") == prop:
+                keep[name] = spec
+            else:
+                others.append(name)
+        for name in sorted(others)[::3]:
+            keep[name] = specs[name]
+        specs = keep
     os.environ.setdefault("A5_JOBS", "2")
     with ThreadPoolExecutor(jobs) as ex:
         res = list(ex.map(lambda kv: run_one(prop, kv[0], kv[1]), specs.items()))
     fire = [r for r in res if r[1] == "fire" and r[2] != "skipped"]
     quiet = [r for r in res if r[1] == "silent" and r[2] != "skipped"]
     return {
+        "scope": scope, "variants_run": len(res),
         "breaking_variants": len(fire),
         "breaking_reported": sum(1 for r in fire if r[2] == "fired"),
         "breaking_undecided": [r[0] for r in fire if r[2] == "undecided"],
